@@ -26,7 +26,7 @@ TEXT = {
     "C10": ("exploration", "Seeded search with scripted cache_if verdicts: rejected results are not stored, accepted ones are (sync Result: only Ok), and the predicate log shows exactly one consultation per execution with that execution's value and key, none on hits. Plus the polling engine (two in-flight executions of one key keep their own verdicts)."),
     "C11": ("exploration", "Seeded search with scripted invalidate_on verdicts that flip between calls: a stale verdict forces re-execution and the fresh value replaces the stale one (served next time), a valid verdict serves without running; consultation log checked. Plus the polling engine (refresh of a stale entry across a suspension)."),
     "C12": ("exploration", "Seeded search over universes of 3-6 sync+async functions with overlapping tag/event/dependency names: returned counts equal the number of registered matching caches, each is listed empty afterwards, unknown names return 0/false. The 'not used yet' clause is decided in the scheduled build where registration state is per execution."),
-    "C13": ("exploration", "Seeded search with arbitrary key subsets as predicates: key listing after = before minus exactly the matching keys for every cache; the history continues and every later overflow / victim / total must agree with the model from which the keys were deleted. Plus seeded schedule search: calls and conditional invalidations on caches that use at most `limit` distinct keys — an entry that no invalidation can have removed must still be served (an invalidation racing with a hit must not leave bookkeeping behind that evicts live entries)."),
+    "C13": ("exploration", "Seeded search with arbitrary key subsets as predicates: key listing after = before minus exactly the matching keys for every cache; the history continues and every later overflow / victim / total must agree with the model from which the keys were deleted. Plus seeded schedule search: calls and conditional invalidations on caches that use at most `limit` distinct keys — an entry that no invalidation can have removed must still be served (an invalidation racing with a hit must not leave bookkeeping behind that evicts live entries); fill-first programs: after a concurrent phase of hits and conditional invalidations in which no body ran, filling the cache up to its limit with fresh keys must evict nothing."),
     "C14": ("exploration", "Seeded search with 2-4 real OS threads as actors run one at a time by the simulator (late respawn = thread exit + fresh thread): one model per thread for scope=thread, one shared model for global/async. Plus seeded schedule search on shared caches: while at most `limit` distinct keys are in use a value whose storing call has returned must be served to every later caller on every thread."),
     "C15": ("exploration", "Seeded search: after every operation stats_registry::get(name) of every cache in the universe equals the model's (hits, misses); reset(name) zeroes only that name; plus schedule search with 2-3 threads: hits+misses = calls, misses = executions, with a scheduling point inside every counter operation."),
     "C16": ("exploration", "The configuration product (3 flavours x 6 policies x limit 1-4 x ttl {-,1,2,3} x max_memory {-,small} x weight (6) = 3456) is enumerated completely by every run of the check, each configuration with seeded histories that overflow, expire, re-store and hit the memory path; plus the whole corpus at macro level; every operation under catch_unwind, overflow checks on. Plus seeded schedule search (a panic that needs an interleaving) and a real-time watchdog that reports an operation that never returns."),
